@@ -186,7 +186,7 @@ structure Loaded where
   pg    : Program
   gens  : List (List String)
   ob    : Observed
-  ref   : RefTrace
+  ref   : Unit → RefTrace     -- built on demand (C19 does not need it)
   model : Option (St Params OptSt Nat Val (List Val) Params VState Val)
 
 def load (j : Json) : Except String Loaded := do
@@ -194,7 +194,7 @@ def load (j : Json) : Except String Loaded := do
   let pg ← program pj
   let gens ← (← getArr pj "gens").mapM strList
   let ob ← observed (← j.getObjVal? "obs")
-  pure { pg := pg, gens := gens, ob := ob, ref := pg.refTrace gens, model := pg.run }
+  pure { pg := pg, gens := gens, ob := ob, ref := fun _ => pg.refTrace gens, model := pg.run }
 
 /-- model-vs-observation agreement on the fields `keep` (all when `keep = []`) -/
 def agreement (ld : Loaded) (keep : List String) : List String :=
@@ -206,10 +206,30 @@ def agreement (ld : Loaded) (keep : List String) : List String :=
     let d := diff ld.pg ld.gens s ld.ob.obs ld.ob.calls
     if keep.isEmpty then d else d.filter (fun f => keep.contains f)
 
+/-- significant bits of an exact value (bit length of the odd part of the numerator) -/
+def bitsOf : Val → Nat
+  | none => 0
+  | some r =>
+    let rec odd (fuel m : Nat) : Nat :=
+      match fuel with
+      | 0 => m
+      | f + 1 => if m != 0 && m % 2 == 0 then odd f (m / 2) else m
+    Nat.log2 (odd 4096 r.num.natAbs) + 1
+
+def maxBits (s : St Params OptSt Nat Val (List Val) Params VState Val) : Nat :=
+  let vals : List Val := s.lastGood.flatten ++ s.θ.flatten ++ s.lossH ++ s.termH.flatten ++
+    s.trackH.flatten.flatten ++ s.opt.trace.flatten ++ s.critH
+  vals.foldl (fun m v => max m (bitsOf v)) 0
+
+/-- the model's final carry is printed only when something fails (it is large) -/
 def answer (ld : Loaded) (keep : List String) (holds : Option String) : Json :=
   let d := agreement ld keep
+  let failing := !d.isEmpty || holds.isSome
   Json.mkObj [
-    ("model", match ld.model with | none => Json.str "rejected" | some s => jModel ld.pg s),
+    ("model", match ld.model with
+      | none => Json.str "rejected"
+      | some s => if failing then jModel ld.pg s else Json.null),
+    ("bits", match ld.model with | none => Json.num (0 : Nat) | some s => Json.num (maxBits s : Nat)),
     ("agree", Json.bool d.isEmpty), ("differs", jStrs d),
     ("holds", Json.bool holds.isNone), ("clause", jOptStr holds)]
 
